@@ -284,6 +284,17 @@ def exec_ops(case, o: Outcome):
                 o.nontrivial = True
             if op["op"] == "sync_aware_insertion" and any(ref.req[c] > 1 for c in new.unassigned):
                 o.probe("sync_insert_left_multi_unplaced")
+            # honest scoring of every intermediate state, not only the last one
+            try:
+                got = m.vrp_objective(new)
+            except SOLVER_ERRORS as e:
+                o.violate(PROP, f"exception:{type(e).__name__}", f"step {step}: vrp_objective: {e}", target="vrp_objective")
+                return
+            want = ref.objective(new.routes, new.unassigned, DEFAULT_W)
+            if not close(got, want):
+                o.violate(PROP, "objective_mismatch", f"step {step} after {op}: vrp_objective={got!r} but the documented weighted sum is {want!r} "
+                          f"for routes={new.routes} unassigned={sorted(new.unassigned)}", target="vrp_objective")
+                return
             state = new
             o.steps += 1
         # the documented objective of the final state
@@ -318,11 +329,17 @@ def run_vrptw(case, policy, o: Outcome | None, ref: Ref, record=True):
     def wrapped(state, **kw):
         seen["n"] += 1
         clock.on_eval()
+        val = real_obj(state, **kw)
         if seen["bad"] is None:
             bad = check_state(ref, state)
             if bad:
                 seen["bad"] = (seen["n"], bad)
-        return real_obj(state, **kw)
+            else:
+                want = ref.objective(state.routes, state.unassigned, w)
+                if not close(val, want):
+                    seen["bad"] = (seen["n"], ("objective_mismatch", f"scored {val!r} but the documented weighted sum is {want!r} for "
+                                               f"routes={state.routes} unassigned={sorted(state.unassigned)}"))
+        return val
 
     res = exc = None
     m.vrp_objective = wrapped
